@@ -17,7 +17,7 @@ Your job: produce ONE realistic change (a plausible bug a developer could introd
  (1) the workspace still compiles, and
  (2) the existing test suite still passes: `cd {wt} && CARGO_TARGET_DIR={wt}/target cargo test --workspace --no-fail-fast --offline` (40 tests + doctests must all still pass), and
  (3) the breakage needs something specific to manifest -- a multi-step sequence of operations / builds, a particular order, an unusual input, a particular graph shape, a fault at a particular point, or two cooperating sites that each look fine alone -- i.e. NOT something ordinary use would expose at once.
-Also write a demonstration: a Rust integration test file (e.g. {wt}/pie/tests/seed_demo.rs or {wt}/graph/tests/seed_demo.rs; only public API; dev-dependencies already available: dev_util, dev_ext, assert_matches, testresult, tempfile via dev_util) that FAILS with your change and PASSES on the unmodified code. Verify both yourself (use `git stash` or `git diff > p.diff; git checkout -- pie graph` to test the unmodified code, then re-apply).
+Also write a demonstration: a Rust integration test file (e.g. {wt}/pie/tests/seed_demo.rs or {wt}/graph/tests/seed_demo.rs; only public API; dev-dependencies already available: dev_util, dev_ext, assert_matches, testresult, tempfile via dev_util) that FAILS with your change and PASSES on the unmodified code. Verify both yourself (use `git diff > p.diff; git checkout -- pie graph` to test the unmodified code, then `git apply p.diff`; NEVER use `git stash`: the stash is shared between worktrees).
 
 Deliverables, all inside {wt}/seed_out/ :
   - patch.diff : `git diff` of the library change ONLY (not the demo test), applicable with `git apply` at the repository root
